@@ -164,6 +164,37 @@ func monitorRenew(sc NScenario, o nOutcome, dist func(string)) (vs []viol) {
 				continue
 			}
 			nx := o.Reqs[k+1].Stamp
+			// the statement's form, from the observed times alone: the renewal request is stamped
+			// at most δ after max(half-life, issue time), δ = the largest overshoot of a clock step
+			// over the armed deadline in this scenario; hence within 1 min + δ of half-life.
+			var delta time.Duration
+			for _, ov := range o.Overshoot {
+				if ov > delta {
+					delta = ov
+				}
+			}
+			due := r
+			if tk.After(due) {
+				due = tk
+			}
+			late := nx.Sub(due)
+			switch {
+			case late > delta:
+				add("renewal-late", "cert of request %d was due for renewal at %v; the request is stamped %v, %v later, but no clock step overshot a wake by more than %v", k, rel(due), rel(nx), late, delta)
+			case late < 0:
+				dist("renew:lateness<0(early)")
+			case late == 0:
+				dist("renew:lateness=0")
+			case late <= time.Second:
+				dist("renew:lateness<=1s")
+			case late <= time.Minute:
+				dist("renew:lateness<=1m")
+			default:
+				dist("renew:lateness>1m(step overshoot)")
+			}
+			if delta == 0 {
+				dist("renew:exact-wake-scenario-renewals")
+			}
 			if !nx.Equal(tau) {
 				add("renewal-late", "cert of request %d: half-life %v, first wake at/after it %v, but the renewal request is stamped %v", k, rel(r), rel(tau), rel(nx))
 			} else if stepLen > 0 && stepLen <= time.Minute {
@@ -282,7 +313,9 @@ func scString(sc NScenario) string {
 	}
 	s += "steps="
 	for _, st := range sc.Steps {
-		if st.D == 0 {
+		if st.W {
+			s += "wake "
+		} else if st.D == 0 {
 			s += fmt.Sprintf("anch%d ", st.Anch)
 		} else {
 			s += time.Duration(st.D).String() + " "
